@@ -18,6 +18,7 @@ import (
 //
 // DirectUDPClient implements [zerocopy.UDPClient].
 type DirectUDPClient struct {
+	network string
 	info    zerocopy.UDPClientSessionInfo
 	session zerocopy.UDPClientSession
 }
@@ -25,6 +26,7 @@ type DirectUDPClient struct {
 // NewDirectUDPClient creates a new UDP client that makes no changes to the packets.
 func NewDirectUDPClient(name, network string, mtu int, listenConfig conn.ListenConfig) *DirectUDPClient {
 	return &DirectUDPClient{
+		network: network,
 		info: zerocopy.UDPClientSessionInfo{
 			Name:         name,
 			MTU:          mtu,
@@ -32,7 +34,6 @@ func NewDirectUDPClient(name, network string, mtu int, listenConfig conn.ListenC
 		},
 		session: zerocopy.UDPClientSession{
 			MaxPacketSize: zerocopy.MaxPacketSizeForAddr(mtu, netip.IPv4Unspecified()),
-			Packer:        NewDirectPacketClientPacker(network, mtu),
 			Unpacker:      DirectPacketClientUnpacker{},
 			Close:         zerocopy.NoopClose,
 		},
@@ -48,7 +49,10 @@ func (c *DirectUDPClient) Info() zerocopy.UDPClientInfo {
 
 // NewSession implements [zerocopy.UDPClient.NewSession].
 func (c *DirectUDPClient) NewSession(ctx context.Context) (zerocopy.UDPClientSessionInfo, zerocopy.UDPClientSession, error) {
-	return c.info, c.session, nil
+	// The packer caches the last resolved domain target, so each session needs its own.
+	session := c.session
+	session.Packer = NewDirectPacketClientPacker(c.network, c.info.MTU)
+	return c.info, session, nil
 }
 
 // ShadowsocksNoneUDPClient is a Shadowsocks none UDP client.
